@@ -77,8 +77,8 @@ CHECKS = {
    text="Coq theorems (Properties/C18.v) over ALL import-line lists and ALL file lists: rendering of imports is invariant under permutation and duplication of the set iteration (hash seed), "
         "complete, duplicate-free and future-first; with a valid layout (distinct output paths) the files written do not depend on the walk order, nor on what the output directory held, re-running is "
         "idempotent, other paths are untouched; every declared type has its module file and its directory's __init__ star-imports it; snake_case yields no upper-case letters. Partial by nature: that the "
-        "emitted text is valid Python and imports is decided by running CPython. Tie: the REAL generator runs 14 times per tree (PYTHONHASHSEED 0/1/2/random, four patched os.walk orders, one generator object used twice and after a failed run, reversed "
-        "creation order, re-run into the same directory, pre-populated directory, protocol.py generate / clean) -> byte-identical files; the package is imported and every declared name checked; the model predicts the file set and __init__ lines.",
+        "emitted text is valid Python and imports is decided by running CPython. Tie: the REAL generator runs 16 times per tree (PYTHONHASHSEED 0/1/2/random, four patched os.walk orders, one generator object used twice and after a failed run, a C-locale process, reversed "
+        "creation order, an output directory whose parents do not exist, re-run into the same directory, pre-populated directory, protocol.py generate / clean; once per check a regeneration over an already imported output directory with SOURCE_DATE_EPOCH pinned) -> byte-identical files; the package is imported and every declared name checked; the model predicts the file set and __init__ lines.",
    technique="Coq proof (sorting/permutation invariance, fold-of-writes with distinct paths) + repeated real generation under varied seeds/orders + import of the result",
    note=KERNEL_NOTE + "Contents of class modules are abstract in the model (their determinism is observed byte-for-byte); cross-directory cyclic type references (circular imports of the generated packages) are a known finding, reported as such.", ref="8 (C18)"),
  'C19': dict(
